@@ -47,6 +47,39 @@ K_ORPHAN = "reconnection-handler-completion-clears-the-slot-of-a-newer-handler-t
 K_ONUP_STUCK = "on-up-completion-callback-races-with-futures-set-host-never-marked-up"
 
 
+class PriorityChooser(object):
+    """Seeded priority scheduling: among the runnable threads the one with the highest (random) priority continues; time never advances
+    while something can run; priorities are re-drawn by reshuffle()."""
+    def __init__(self, rng, p_preempt=0.5):
+        self.rng = rng
+        self.p_preempt = p_preempt
+        self.prio = {}
+        self.log = []
+
+    def reshuffle(self):
+        for k in list(self.prio):
+            self.prio[k] = self.rng.random()
+
+    def choose(self, kind, options):
+        if len(options) == 1:
+            i = 0
+        elif kind == 'run':
+            cands = [o for o in options if o != '<time>']
+            for o in cands:
+                if o not in self.prio:
+                    self.prio[o] = self.rng.random()
+            i = options.index(max(cands, key=lambda o: self.prio[o]))
+        else:
+            i = self.rng.randrange(len(options))
+        self.log.append(i)
+        return i
+
+    def flip(self, kind, p=None):
+        r = self.rng.random() < (self.p_preempt if p is None else p)
+        self.log.append(1 if r else 0)
+        return r
+
+
 def run_history(seed):
     from sim.env import SimEnv
     from sim import world as W
@@ -61,22 +94,37 @@ def run_history(seed):
     rng = random.Random(seed)
     random.seed(seed)
     n_nodes = rng.choice([2, 3, 3])
-    n_sessions = rng.choice([0, 1, 1, 2])
+    family = rng.choices(['random', 'midconnect', 'updown'], [55, 20, 25])[0]
+    n_sessions = rng.choice([0, 1, 1, 2, 2, 3])
+    if family == 'updown':
+        n_sessions = rng.choice([2, 2, 3])
     proto = rng.choice([4, 4, 3, 2])
     max_attempts = rng.choice([None, None, None, 2])
     n_events = rng.randint(4, 14)
     addrs = ['127.0.0.%d' % (i + 1) for i in range(n_nodes)]
-    ch = W.RandomChooser(random.Random(seed * 17 + 1), p_time=0.0, p_preempt=rng.choice([0.0, 0.1, 0.3]))
+    if family == 'updown' or rng.random() < 0.25:
+        # priority schedules (PCT style): the runnable thread of highest priority runs, priorities are re-drawn at every event of the
+        # history - one thread is regularly starved while another runs a whole task to its end
+        ch = PriorityChooser(random.Random(seed * 17 + 1), p_preempt=rng.choice([0.3, 0.6, 1.0]))
+    else:
+        ch = W.RandomChooser(random.Random(seed * 17 + 1), p_time=0.0, p_preempt=rng.choice([0.0, 0.1, 0.3]))
     env = SimEnv(ch, addresses=addrs, max_virtual_time=3000.0)
     w = env.world
     plan = {}
+    hold_reconn = {}                 # address -> number of reconnector connections whose SUPPORTED is still to be kept back
     fail_pool = {}                   # address -> number of pool-init connections still to be reset at STARTUP
     notes = []                       # (t, who, what, address)   who = 'listener' | 'policy'
     viol = []
-    info = {'seed': seed, 'nodes': n_nodes, 'sessions': n_sessions, 'proto': proto, 'max_attempts': max_attempts, 'events': []}
+    info = {'seed': seed, 'family': family, 'nodes': n_nodes, 'sessions': n_sessions, 'proto': proto, 'max_attempts': max_attempts, 'events': []}
 
     def behaviour(node, cstate, req):
         a = node.address
+        if req['op'] == 'OPTIONS' and hold_reconn.get(a, 0) > 0 and cstate.conn.sim_creator == 'reconnector':
+            # the reconnection attempt is connected at the node, its handshake answer is kept back until the scenario releases it
+            hold_reconn[a] -= 1
+            counters['reconnection_attempts_held_mid_connect'] += 1
+            r = node.default_reaction(cstate, req)
+            return ('hold', r[1])
         if req['op'] == 'STARTUP' and fail_pool.get(a, 0) > 0 and cstate.conn.sim_creator == 'pool-init':
             fail_pool[a] -= 1
             return ('reset',)
@@ -155,7 +203,7 @@ def run_history(seed):
         return None if last is None else bool(last.is_host_addition)
 
     uids = iter(range(1, 100000))
-    counters = {'quiescent_checks': 0, 'down_host_checks': 0, 'handlers_seen': 0, 'reconnector_conns': 0, 'removals_observed': 0,
+    counters = {'quiescent_checks': 0, 'down_host_checks': 0, 'handlers_seen': 0, 'reconnector_conns': 0, 'removals_observed': 0, 'reconnection_attempts_held_mid_connect': 0, 'removals_while_an_attempt_was_mid_connect': 0, 'on_up_with_2plus_sessions': 0,
                 'final_hosts': 0, 'final_hosts_of_unknown_state': 0, 'final_pools': 0, 'notifications': 0}
 
     # observe Host.get_and_set_reconnection_handler from outside: which handler loses the host's slot to the completion callback of another one
@@ -182,7 +230,7 @@ def run_history(seed):
 
     with env:
         prof = ExecutionProfile(load_balancing_policy=RecordingPolicy(), request_timeout=5.0, retry_policy=FallthroughRetryPolicy())
-        cluster = env.cluster(contact_points=[addrs[0]], executor_threads=3, protocol_version=proto,
+        cluster = env.cluster(contact_points=[addrs[0]], executor_threads=max(3, n_sessions + 2), protocol_version=proto,
                               # the recording policy instance sits in exactly one profile (by default the cluster wires the default
                               # profile's policy object into the three graph profiles as well and notifies it once per profile)
                               execution_profiles={EXEC_PROFILE_DEFAULT: prof,
@@ -222,7 +270,17 @@ def run_history(seed):
                 h = getattr(tm.task[0], '__self__', None)
                 if isinstance(h, _HostReconnectionHandler) and not h._cancelled:
                     out.setdefault(id(h.host), []).append(h)
+            # a handler whose attempt is inside its connection factory call right now (handshake answer outstanding) has no pending timer:
+            # it is live as long as it holds the host's slot and is not cancelled
+            for h_ in members():
+                rh = h_._reconnection_handler
+                if rh is not None and not rh._cancelled and not any(rh is x for x in out.get(id(h_), ())) and held_by_address(h_.endpoint.address):
+                    out.setdefault(id(h_), []).append(rh)
             return out
+
+        def held_by_address(a_):
+            return any((not hh.done) and hh.req['op'] == 'OPTIONS' and hh.node.address == a_ and not hh.conn.is_closed and hh.conn.sim_creator == 'reconnector'
+                       for hh in env.net.held)
 
         def check(label):
             """Invariants at a quiescent point."""
@@ -278,13 +336,67 @@ def run_history(seed):
 
         check('after connect')
         # ---------------- the history
-        for step in range(n_events):
+        def release_handshakes():
+            for hh in list(env.net.held):
+                if not hh.done and hh.req['op'] == 'OPTIONS':
+                    hh.release()
+
+        def held_attempts(a_):
+            return [hh for hh in env.net.held if not hh.done and hh.req['op'] == 'OPTIONS' and hh.node.address == a_ and not hh.conn.is_closed]
+
+        script = None
+        others = addrs[1:]
+        if family == 'midconnect':
+            # a host is removed while a reconnection attempt for it is inside its connection factory call (handshake answer kept back),
+            # and the attempt then succeeds; plain reconnector (host was up before) and host-addition reconnector
+            x = rng.choice(others)
+            script = []
+            if n_sessions >= 1 and rng.random() < 0.5:
+                script += [('fail_pool', x, n_sessions), ('hide_refresh', x, None), ('settle', x, None), ('show_refresh', x, None), ('settle', x, None)]
+            else:
+                script += [('kill_all', x, None) if n_sessions else ('status_down', x, None), ('settle', x, None)]
+            script += [('hold_reconnect', x, 1), ('advance', x, 1.1), ('settle', x, None),
+                       (rng.choice(['remove', 'hide_refresh']), x, None), ('settle', x, None)]
+            if rng.random() < 0.7:
+                script += [('advance', x, rng.choice([0.2, 0.5]))]
+            script += [('release', x, None), ('settle', x, None), ('advance', x, 0.5)]
+            script += [(None, None, None)] * rng.randint(0, 3)
+        elif family == 'updown':
+            # several sessions: hosts go down and come back (reconnector / STATUS_CHANGE UP) again and again: on_up with one pool future per session
+            script = []
+            for _ in range(rng.randint(2, 4)):
+                x = rng.choice(addrs)
+                script += [('kill_all', x, None)]
+                if rng.random() < 0.5:
+                    script += [('settle', x, None)]
+                script += [('status_up', x, None)] if rng.random() < 0.4 else [('advance', x, 1.1)]
+                if rng.random() < 0.5:
+                    script += [('settle', x, None)]
+            script += [(None, None, None)] * rng.randint(0, 3)
+        n_steps = len(script) if script is not None else n_events
+        for step in range(n_steps):
             a = rng.choice(addrs)
-            node = env.net.nodes[a]
+            arg = None
             ev = rng.choices(['kill', 'crash', 'revive', 'status_down', 'status_up', 'remove', 'new_node', 'hide_refresh', 'show_refresh', 'fail_pool',
-                              'advance', 'advance_long'], [3, 3, 3, 3, 3, 1, 2, 1, 2, 2, 4, 2])[0]
+                              'advance', 'advance_long', 'hold_reconnect', 'release'], [3, 3, 3, 3, 3, 1, 2, 1, 2, 2, 4, 2, 1, 1])[0]
+            if script is not None and script[step][0] is not None:
+                ev, a, arg = script[step]
+            node = env.net.nodes[a]
+            if hasattr(ch, 'reshuffle'):
+                ch.reshuffle()
             info['events'].append((ev, a))
-            if ev == 'kill':
+            if ev == 'settle':
+                w.settle(advance=False)
+            elif ev == 'kill_all':
+                h = host_of(a)
+                for s in sessions:
+                    if h is not None:
+                        request(s, h, 'reset')
+            elif ev == 'hold_reconnect':
+                hold_reconn[a] = hold_reconn.get(a, 0) + (arg or 1)
+            elif ev == 'release':
+                release_handshakes()
+            elif ev == 'kill':
                 h = host_of(a)
                 for s in sessions:
                     if h is not None and rng.random() < 0.7:
@@ -311,6 +423,8 @@ def run_history(seed):
                 push(F.body_event_status('UP', ip_bytes(a), 9042))
             elif ev == 'remove':
                 if a != addrs[0]:
+                    if held_attempts(a):
+                        counters['removals_while_an_attempt_was_mid_connect'] += 1
                     env.net.hidden_peers.add(a)
                     h = host_of(a)
                     if h is not None:
@@ -321,22 +435,26 @@ def run_history(seed):
                 push(F.body_event_topology('NEW_NODE', ip_bytes(a), 9042))
             elif ev == 'hide_refresh':
                 if a != addrs[0]:
+                    if held_attempts(a):
+                        counters['removals_while_an_attempt_was_mid_connect'] += 1
                     env.net.hidden_peers.add(a)
                     cluster.control_connection.refresh_node_list_and_token_map()
             elif ev == 'show_refresh':
                 env.net.hidden_peers.discard(a)
                 cluster.control_connection.refresh_node_list_and_token_map()
             elif ev == 'fail_pool':
-                fail_pool[a] = fail_pool.get(a, 0) + rng.choice([1, 1, 2])
+                fail_pool[a] = fail_pool.get(a, 0) + (arg or rng.choice([1, 1, 2]))
             elif ev == 'advance':
-                w.settle(until=w.now + rng.choice([0.3, 1.1, 2.5]))
+                w.settle(until=w.now + (arg or rng.choice([0.3, 1.1, 2.5])))
             elif ev == 'advance_long':
                 w.settle(until=w.now + rng.choice([4.0, 7.0]))
-            if rng.random() < 0.75:
+            if script is None and rng.random() < 0.75 or ev == 'settle':
                 w.settle(advance=False)
                 check('after event %d %s %s' % (step, ev, a))
         # ---------------- final phase: everything healthy, ample time
         fail_pool.clear()
+        hold_reconn.clear()
+        release_handshakes()
         for nd in env.net.nodes.values():
             nd.up = True
         w.settle(advance=False)
@@ -350,6 +468,7 @@ def run_history(seed):
         with w.inspect():
             live = live_handlers()
             counters['notifications'] = len(notes)
+            counters['on_up_with_2plus_sessions'] = sum(1 for n in notes if n[1] == 'policy' and n[2] == 'up' and n[0] > 0) if n_sessions >= 2 else 0
             counters['reconnector_conns'] = sum(1 for c in env.net.conns if c.sim_creator == 'reconnector')
             counters['handlers_seen'] = len(set(id(getattr(x[1], '__self__', None)) for x in cluster.scheduler.scheduled
                                                 if isinstance(getattr(x[1], '__self__', None), _HostReconnectionHandler)))
@@ -416,6 +535,22 @@ def run_history(seed):
                                                                    for c in env.net.conns)}))
                     state = k
                     prev = n
+        # a removed host is not brought back: after an observer was told on_remove(host) it is not told on_up / on_add for that host object
+        # at a later virtual time (an on_up that was already running when the removal came finishes in the same instant and is not judged here)
+        for who in ('listener', 'policy'):
+            rm = {}
+            for n in notes:
+                if n[1] != who:
+                    continue
+                if n[2] == 'remove':
+                    rm.setdefault(n[4], n)
+                elif n[2] in ('up', 'add') and n[4] in rm and n[0] > rm[n[4]][0] + 1e-3:
+                    hid = n[4]
+                    on_up_by_event = any(getattr(x[1], '__name__', '') == 'on_up' and x[2] and id(x[2][0]) == hid and x[0] >= rm[hid][0] - 1e-3 for x in sched_log())
+                    viol.append(('notified-up-after-remove', "%s got on_%s for host %s at t=%.2f although it had been told on_remove for that host object at t=%.2f" % (
+                        who, n[2], n[3], n[0], rm[hid][0]), {'who': who, 'handler_started_after_removal': handler_started_after_removal(hid),
+                                                               'on_up_scheduled_by_a_status_event_around_the_removal': on_up_by_event}))
+                    del rm[hid]
         # removed hosts are never reconnected: after listeners were told on_remove(host), no attempt is scheduled any more by a handler of that host object
         # (by object, not by address: the address may be added again as a new Host while the removal is still being announced)
         for n in [x for x in notes if x[1] == 'listener' and x[2] == 'remove']:
@@ -466,6 +601,8 @@ def classify(v, info):
             and not d.get('listeners_ever_told_add_or_up') and not d.get('reconnection_handler_set') and d.get('live_handlers') == 0 \
             and d.get('who', 'policy') == 'policy' and d.get('last', 'add') == 'add':
         return K_ADD_PARTIAL
+    if mech == 'notified-up-after-remove' and (d.get('handler_started_after_removal') or d.get('on_up_scheduled_by_a_status_event_around_the_removal')):
+        return K_REMOVED_RESTART
     if mech in ('removed-host-still-has-reconnector', 'removed-host-reconnected') and d.get('handler_started_after_removal'):
         return K_REMOVED_RESTART
     if mech == 'duplicate-on-up' and d.get('previous') == 'up' and not d.get('same_instant') and (d.get('live_reconnector_seen_while_host_up_before') or d.get('reconnection_attempt_while_told_up')):
